@@ -199,9 +199,14 @@ def m_step(machine: "IVectorMachine", stats: IVectorStats) -> "IVectorMachine":
         fnorm_sigma_wij_tt = np.diagonal(
             stats.fnorm_sigma_wij @ X, axis1=-2, axis2=-1
         )
-        machine.sigma = (stats.snormij - fnorm_sigma_wij_tt) / stats.nij[
-            :, None
-        ]
+        seen = (stats.nij != 0)[:, None]
+        # A component that received no data keeps its previous covariance
+        machine.sigma = np.where(
+            seen,
+            (stats.snormij - fnorm_sigma_wij_tt)
+            / np.where(seen, stats.nij[:, None], 1),
+            machine.sigma,
+        )
         machine.sigma[
             machine.sigma < machine.variance_floor
         ] = machine.variance_floor
